@@ -108,7 +108,7 @@ ASSUMPTIONS = ['malloc never fails; CBMC\'s heap model (fresh blocks hold nondet
 CLAIM = dict(
  text='The solver shows that utl::vector<int> (1 symbolic step from 49 pairs of pre-states; every 2-operation sequence), utl::static_vector<int,4> (K <= 3 symbolic steps, up to 6 thorough), small_vector<int,3> in its in-place mode, '
       'utl::array<int,4>, utl::tuple / tuplev2 <int,unsigned char,size_t>, utl::maybe<int|double> and utl::either<int,unsigned char> hold, for two live objects and every choice of operation, target and arguments, '
-      'exactly the sizes / elements / has_value / active alternative / members of the std::vector / std::array / std::tuple / std::optional / std::variant model: copies are independent of their source, '
+      'exactly the sizes / elements / has_value / active alternative / members of the std::vector / std::array / std::tuple / std::optional / std::variant model: copies are independent of their source and can be grown on their own (copy-construct, then push_back into the copy), '
       'self-assignment changes nothing, over-capacity push_back/resize on static_vector is refused with contents unchanged; for the heap-backed vector no block is leaked or freed twice and every access stays inside its block.',
  note='Pending findings (excluded regions): utl::vector(N) leaves N cells uninitialised; utl::vector(0) leaks its block; static_vector::resize growth exposes stale cells; static_vector(N>capacity) reports size > capacity; '
       'either/maybe with a heap-owning alternative leak / assign into unconstructed storage. Bounded as stated per harness. Trusted: clang-14 -O1 lowering, engine/ll2c.py, CBMC heap model (cadical back end).')
